@@ -22,7 +22,7 @@ class Model:
         self.kind = kind
         self.T = T
         self.cap = cap
-        self.outcomes = outcomes or app.OUTCOMES
+        self.outcomes = outcomes or (app.OUTCOMES + app.JOIN_OUTCOMES)
 
     def served(self, ns):
         if self.nsmode == 'star':
@@ -43,6 +43,9 @@ class Model:
             # only, plus catch-all namespace handlers for the rest
             app.install(w, 'func', ['/'])
             app.install(w, 'star', [])
+            # '/x' has a handler of its own for an unrelated event, but its
+            # connect/disconnect handlers are the catch-all namespace's
+            w.sio.on('misc', (lambda *a: None), namespace='/x')
         elif kind == 'star':
             app.install(w, 'star', [])
         else:
@@ -56,6 +59,7 @@ class Model:
         w.retired = {}               # (slot, ns) -> count
         w.old = []                   # [(sid, ns)] most recent retired sids
         w.all_sids = set()
+        w.joined = set()             # live sids put into JOIN_ROOM on connect
         w.drain_all()
         w.take_log()
         return w
@@ -78,6 +82,8 @@ class Model:
                 else:
                     for a in range(len(AUTHS)):
                         for o in self.outcomes:
+                            if o.startswith('j') and a:
+                                continue
                             ops.append(('CONNECT', s, ns, a, o))
         return ops
 
@@ -137,7 +143,9 @@ class Model:
                               f'environ#{lenv}, expected {ns} '
                               f'{want_auth!r} #{t + 1}')
             real_sid = w.sid_of(t, ns)
-            if outcome == 'accept':
+            if outcome in ('accept', 'jaccept'):
+                if outcome == 'jaccept' and real_sid is not None:
+                    w.joined.add(real_sid)
                 exp = [('pkt', 0, ns, None, {'sid': sid_name})]
                 if frames != exp or sid_name is None:
                     self._bad(w, 'accept-answer',
@@ -241,7 +249,8 @@ class Model:
         for s in range(self.T):
             for ns in REQ_NS:
                 st.append(((s, ns) in w.conn,
-                           min(self.cap, w.retired.get((s, ns), 0))))
+                           min(self.cap, w.retired.get((s, ns), 0)),
+                           w.conn.get((s, ns)) in w.joined))
         snap = w.snapshot()
         shape = (len(snap['rooms']),
                  sum(len(v) for v in snap['rooms'].values()),
@@ -261,7 +270,11 @@ class Model:
                               f'{n(real)!r}, ledger {n(want)!r}')
                 if want is not None:
                     rooms = w.api('rooms', want, namespace=ns)
-                    if rooms != ('ok', [want]):
+                    if rooms[0] == 'ok' and isinstance(rooms[1], list):
+                        rooms = ('ok', sorted(rooms[1], key=str))
+                    exp_rooms = sorted([want] + ([app.JOIN_ROOM] if want in
+                                                 w.joined else []), key=str)
+                    if rooms != ('ok', exp_rooms):
                         self._bad(w, 'rooms', f'rooms of live {n(want)} = '
                                   f'{n(rooms)!r}')
         # retired sids are gone for good
@@ -275,6 +288,17 @@ class Model:
             if fr:
                 self._bad(w, 'retired-delivery',
                           f'emit to retired {n(sid)} delivered {fr!r}')
+        # the room joined by connect handlers holds exactly the live joiners
+        for ns in REQ_NS:
+            w.api('emit', 'p', 2, to=app.JOIN_ROOM, namespace=ns)
+            for s in range(self.T):
+                fr = [f for f in w.drain(w.slot[s]) if f[0] != 'eio']
+                exp = [('pkt', 2, ns, None, ['p', 2])] \
+                    if w.conn.get((s, ns)) in w.joined else []
+                if fr != exp:
+                    self._bad(w, 'room-delivery', f'emit to the room joined '
+                              f'in connect handlers on {ns}: slot {s} got '
+                              f'{fr!r}, expected {exp!r}')
         # broadcast reaches exactly the live connections of the namespace
         for ns in REQ_NS:
             w.api('emit', 'p', 1, namespace=ns)
